@@ -87,6 +87,12 @@ func (a *aggregatedLabels) Key() logqlmetric.GroupingKey {
 	a.forEach(func(k, v string) {
 		pairs = append(pairs, labelEntry{name: k, value: v})
 	})
+	if len(pairs) == 0 {
+		// The empty label set is one label set, whoever produced it: use the key
+		// of logqlmetric's own empty set (the series of `vector(N)`), so that
+		// `sum(...) or vector(0)` and `sum(...) / vector(60)` match the two.
+		return 0
+	}
 	slices.SortFunc(pairs, func(x, y labelEntry) int {
 		return strings.Compare(x.name, y.name)
 	})
